@@ -246,6 +246,7 @@ type Universe struct {
 	typeTagOrd []string
 	consts     map[string]Sort // global constants
 	constOrd   []string
+	axiomSeen  map[string]bool
 }
 
 // UAxiom is a global axiom included when any of its trigger symbols occurs.
@@ -287,6 +288,13 @@ func (u *Universe) declareConst(name string, s Sort) {
 }
 
 func (u *Universe) axiom(text string, syms ...string) {
+	if u.axiomSeen == nil {
+		u.axiomSeen = map[string]bool{}
+	}
+	if u.axiomSeen[text] {
+		return
+	}
+	u.axiomSeen[text] = true
 	u.axioms = append(u.axioms, UAxiom{syms, text})
 }
 
